@@ -18,6 +18,7 @@ def layout_independent_full : Prop :=
   ∀ (fs : List Field) (l₁ l₂ : Layout) (v : Val) (c₁ c₂ : Out),
     wfFieldNames fs = true → Representable (plainTop fs) v = true →
     Admissible { top := plainTop fs } l₁ = true → Admissible { top := plainTop fs } l₂ = true →
+    AnySpreadOk { top := plainTop fs } l₁ v = true → AnySpreadOk { top := plainTop fs } l₂ v = true →
     unparseRow { top := plainTop fs } l₁ v = .ok c₁ → unparseRow { top := plainTop fs } l₂ v = .ok c₂ →
     parseRow { top := plainTop fs } c₁ = parseRow { top := plainTop fs } c₂
 
@@ -28,11 +29,13 @@ theorem layout_independent_partial (fs : List Field) (l₁ l₂ : Layout) (v : V
     (hwf : wfFieldNames fs = true) (hfam : family fs = true)
     (hr : Representable (plainTop fs) v = true)
     (h₁ : Admissible { top := plainTop fs } l₁ = true) (h₂ : Admissible { top := plainTop fs } l₂ = true)
+    (ha₁ : AnySpreadOk { top := plainTop fs } l₁ v = true)
+    (ha₂ : AnySpreadOk { top := plainTop fs } l₂ v = true)
     (hc₁ : unparseRow { top := plainTop fs } l₁ v = .ok c₁)
     (hc₂ : unparseRow { top := plainTop fs } l₂ v = .ok c₂) :
     parseRow { top := plainTop fs } c₁ = parseRow { top := plainTop fs } c₂ := by
-  obtain ⟨d₁, e₁, p₁⟩ := parse_unparse_partial fs l₁ v hwf hfam hr h₁
-  obtain ⟨d₂, e₂, p₂⟩ := parse_unparse_partial fs l₂ v hwf hfam hr h₂
+  obtain ⟨d₁, e₁, p₁⟩ := parse_unparse_partial fs l₁ v hwf hfam hr h₁ ha₁
+  obtain ⟨d₂, e₂, p₂⟩ := parse_unparse_partial fs l₂ v hwf hfam hr h₂ ha₂
   rw [hc₁] at e₁; rw [hc₂] at e₂
   cases e₁; cases e₂
   rw [p₁, p₂]
